@@ -67,7 +67,9 @@ def post(o, r, n, g):
                ForAll([pr], Implies(And(G.P[pr], long_(pr)), inR(mkprod(head(pr), RenSeq(M.term, body(pr))))), patterns=[G.P[pr]]),
                ForAll([t_], Implies(U[t_], inR(mkprod(mval(M, t_), Unit(t_))))))
 def inv0(e, done):
-    return And(t2v_ok(e.self, e.term_to_var, lambda t: done[t]), ForAll([x], e.new_variables[x] == Exists([t_], And(done[t_], mval(e.term_to_var, t_) == x))))
+    return And(t2v_ok(e.self, e.term_to_var, lambda t: done[t]),          # new_variables = the names given so far (two implications with triggers)
+               ForAll([x], Implies(e.new_variables[x], Exists([t_], And(done[t_], mval(e.term_to_var, t_) == x))), patterns=[e.new_variables[x]]),
+               ForAll([t_], Implies(done[t_], e.new_variables[mval(e.term_to_var, t_)]), patterns=[done[t_]]))
 def inv1(e, done):
     return And(ForAll([q], e.new_productions[q] >= 0), prods_ok(lambda q_: e.new_productions[q_] > 0, e.self, e.term_to_var, lambda p_: done[p_], lambda q_: e.new_productions[q_]),
                used_ok(e.used, e.self, lambda p_: done[p_]))
@@ -95,11 +97,71 @@ W.contract(Contract('CFG._get_productions_with_only_single_terminals', [('self',
                                 lambda e: And(e.new_body.term == RenSeq(e.term_to_var.term, body(e.production.term)), NoEps(e.new_body.term)))},
     loops={'0': inv0, '0.0': lambda e, done: isVar(e.var.term), '1': inv1, '1.0': inv10, '2': inv2}))
 
+# ------------------------------------------------------------------ is_normal_form (Production and CFG)
+W.fields[('Prod', '_body')] = 'body'; W.fields[('Prod', '_head')] = 'head'
+W.isinstance_preds['Variable'] = lambda s_: isVar(s_.term)
+W.isinstance_preds['Terminal'] = lambda s_: Not(isVar(s_.term))
+def cnf_shape(p_):
+    """A -> B C with two variables, or A -> a with one terminal"""
+    b = body(p_)
+    return Or(And(Length(b) == 2, isVar(b[0]), isVar(b[1])), And(Length(b) == 1, Not(isVar(b[0]))))
+W.contract(Contract('Prod.is_normal_form', [('self', Prod)], ret=TBool, ensures=lambda o, r, n: r.term == cnf_shape(o.self.term), pure=lambda o: Sym(TBool, cnf_shape(o.self.term))))          # falls off the end (None, falsy) for any other length
+W.contract(Contract('CFG.is_normal_form', [('self', CFGT)], ret=TBool, ensures=lambda o, r, n: r.term == ForAll([pr], Implies(o.self.P[pr], cnf_shape(pr)))))
+
+# ------------------------------------------------------------------ binarisation: _get_next_free_variable, _decompose_productions (shape only)
+Str = TVal('Str')
+cvar = Function('cnf_var', IntSort(), Ob.sort())                    # Variable("C#CNF#" + str(idx))
+W.axioms.append(ForAll([k_], isVar(cvar(k_))))
+W.consts['str:C#CNF#'] = Sym(Str, Const('S_C_CNF', Str.sort()))
+def variable_ctor2(eng, e, st):
+    a = e.args[0] if len(e.args) == 1 else None
+    if isinstance(a, ast.BinOp) and isinstance(a.op, ast.Add) and isinstance(a.left, ast.Name) and a.left.id == 'prefix' and isinstance(a.right, ast.Call) and getattr(a.right.func, 'id', None) == 'str':
+        i = eng.ev(a.right.args[0], st)
+        if i.t is TInt: return Sym(Ob, cvar(i.term))          # the only prefix passed is "C#CNF#" (precondition of the contract below)
+    return variable_ctor(eng, e, st)
+W.ctors['Variable'] = variable_ctor2
+PairIO = TTuple(TInt, Ob)
+W.contract(Contract('CFG._get_next_free_variable', [('self', CFGT), ('idx', TInt), ('prefix', Str)], ret=PairIO,
+    requires=lambda o: o.prefix.term == W.consts['str:C#CNF#'].term,
+    ensures=lambda o, r, n: And(PairIO.get(r, '_0').term > o.idx.term, PairIO.get(r, '_1').term == cvar(PairIO.get(r, '_0').term), Not(o.self.V[PairIO.get(r, '_1')])),
+    loops={'0': lambda e, done: And(e.idx.term > e.get('$old.idx').term, e.temp.term == cvar(e.idx.term))}))
+W.identity_fns |= {'tuple'}
+NEp = Function('NoEpsilonObject', SeqOb.sort(), BoolSort())
+sq_ = S.sq
+W.axioms += [ForAll([x], NEp(Unit(x)) == Not(isEps(x)), patterns=[NEp(Unit(x))]),
+             ForAll([x, sq_], NEp(Concat(Unit(x), sq_)) == And(Not(isEps(x)), NEp(sq_)), patterns=[NEp(Concat(Unit(x), sq_))]),
+             ForAll([sq_], Implies(NEp(sq_), Filt(sq_) == sq_), patterns=[Filt(sq_)])]                  # List.filter_eq_self (bridge/count.lean)
+MapSO = TMap(SeqOb, Ob)
+def long_vars(p_): return Implies(Length(body(p_)) >= 2, ForAll([k_], Implies(And(0 <= k_, k_ < Length(body(p_))), isVar(body(p_)[k_]))))
+def shape2(q_): return And(Length(body(q_)) == 2, isVar(body(q_)[0]), isVar(body(q_)[1]))
+def dp_res(e_res, prods):
+    return And(ForAll([q], e_res[q] >= 0), ForAll([q], Implies(e_res[q] > 0, Or(And(prods[q] > 0, Length(body(q)) <= 2), shape2(q)))))
+def done_ok(e): return ForAll([S.sq], Implies(Select(MapSO.get(e.done, 'dom').term, S.sq), isVar(Select(MapSO.get(e.done, 'val').term, S.sq))))
+W.contract(Contract('CFG._decompose_productions', [('self', CFGT), ('productions', BagProd)], ret=BagProd,
+    requires=lambda o: ForAll([pr], Implies(o.productions[pr] > 0, long_vars(pr))),
+    # shape only: every production of the result is an input production with at most two symbols, or has exactly two variables as its body; short inputs are kept
+    ensures=lambda o, r, n: And(dp_res(r, o.productions), ForAll([pr], Implies(And(o.productions[pr] > 0, Length(body(pr)) <= 2), r[pr] > 0))),
+    locals={'new_productions': BagProd, 'done': MapSO, 'new_var': SeqOb},
+    loops={'0': lambda e, dn: And(dp_res(e.new_productions, e.productions), done_ok(e), ForAll([pr], Implies(And(dn[pr] > 0, Length(body(pr)) <= 2), e.new_productions[pr] > 0))),
+           '0.0': lambda e, i: And(e.body.term == body(e.production.term), Length(e.body.term) > 2, e.productions[e.production.term] > 0, Length(e.new_var.term) == i.term,
+                                   ForAll([k_], Implies(And(0 <= k_, k_ < i.term), isVar(e.new_var.term[k_])))),
+           '0.1': lambda e, i: And(e.body.term == body(e.production.term), Length(e.body.term) > 2, e.productions[e.production.term] > 0, Length(e.new_var.term) == Length(e.body.term) - 2,
+                                   ForAll([k_], Implies(And(0 <= k_, k_ < Length(e.new_var.term)), isVar(e.new_var.term[k_]))), Not(e.stopped.term),
+                                   dp_res(e.new_productions, e.productions), done_ok(e),
+                                   ForAll([pr], Implies(And(e.get('$done0')[pr] > 0, Length(body(pr)) <= 2), e.new_productions[pr] > 0)))}))
+
 W.ground_sorts = (Ob.sort(),)
 W.special = {}
 _P = 'pyformlang/cfg/cfg.py'
-TARGETS = {'CFG._get_productions_with_only_single_terminals': (_P, 'CFG._get_productions_with_only_single_terminals')}
+TARGETS = {'CFG._get_productions_with_only_single_terminals': (_P, 'CFG._get_productions_with_only_single_terminals'), 'CFG.is_normal_form': (_P, 'CFG.is_normal_form'),
+           'Prod.is_normal_form': ('pyformlang/cfg/production.py', 'Production.is_normal_form'),
+           'CFG._get_next_free_variable': (_P, 'CFG._get_next_free_variable'), 'CFG._decompose_productions': (_P, 'CFG._decompose_productions')}
 SMOKE = [
+    ('CFG._decompose_productions', _P, "            if len(body) <= 2:\n                new_productions.append(production)\n                continue", "            if len(body) <= 3:\n                new_productions.append(production)\n                continue", 'break'),
+    ('CFG._decompose_productions', _P, "                new_productions.append(Production(head, [body[-2], body[-1]]))", "                new_productions.append(Production(head, [body[-3], body[-2], body[-1]]))", 'break'),
+    ('CFG._get_next_free_variable', _P, "        while temp in self._variables:\n            idx += 1\n            temp = Variable(prefix + str(idx))\n", "", 'break'),
+    ('Prod.is_normal_form', 'pyformlang/cfg/production.py', "            return isinstance(self._body[0], Terminal)", "            return True", 'break'),
+    ('CFG.is_normal_form', _P, "        return all(\n            production.is_normal_form() for production in self._productions)", "        return any(\n            production.is_normal_form() for production in self._productions)", 'break'),
     ('CFG._get_productions_with_only_single_terminals', _P, "            while var in self._variables or var in new_variables:\n                var = Variable(str(var.value) + \"#\")\n", "", 'break'),
     ('CFG._get_productions_with_only_single_terminals', _P, "            while var in self._variables or var in new_variables:", "            while var in self._variables:", 'break'),
     ('CFG._get_productions_with_only_single_terminals', _P, "                    new_body.append(term_to_var[symbol])\n                    used.add(symbol)", "                    new_body.append(term_to_var[symbol])", 'break'),
